@@ -2039,6 +2039,8 @@ class Recipe:
             A new Container so that it may be used in later recipe steps.
         """
 
+        if self.locked:
+            raise RuntimeError("This recipe is locked.")
         if not isinstance(solvent, (Substance, Container)):
             raise TypeError("Solvent must be a Substance or a Container.")
         if name is not None and not isinstance(name, str):
@@ -2069,6 +2071,9 @@ class Recipe:
         if ('concentration' in kwargs) + ('total_quantity' in kwargs) + ('quantity' in kwargs) != 2:
             raise ValueError("Must specify two values out of concentration, quantity, and total quantity.")
 
+        if isinstance(solvent, Container) and solvent.name not in self.results:
+            raise ValueError(f"Solvent {solvent.name} has not been previously declared for use.")
+
         solute_names = ', '.join(substance.name for substance in solute) if isinstance(solute, Iterable) else solute.name
         if name is None:
             name = f"solution of {solute_names} in {solvent.name}"
@@ -2097,6 +2102,8 @@ class Recipe:
             A new Container so that it may be used in later recipe steps.
         """
 
+        if self.locked:
+            raise RuntimeError("This recipe is locked.")
         if not isinstance(source, Container):
             raise TypeError("Source must be a Container.")
         if not isinstance(solute, Substance):
@@ -2109,6 +2116,9 @@ class Recipe:
             raise TypeError("Quantity must be a str.")
         if name and not isinstance(name, str):
             raise TypeError("Name must be a str.")
+
+        if source.name not in self.results:
+            raise ValueError("Source not found in declared uses.")
 
         quantity_value, quantity_unit = Unit.parse_quantity(quantity)
         if quantity_value <= 0:
